@@ -9,13 +9,15 @@ fn main() {
     let r = Report::new("C01", &leg, "exploration", "E-ENUM");
     if let Some(case) = r.replay_case() {
         match case["leg"].as_str().unwrap_or(&leg) {
-            "dyn" => h_cql::c01dyn::replay(&r, &case),
+            "dyn" => h_val::c01dyn::replay(&r, &case),
+            "static" => h_val::c01static::replay(&r, &case),
             other => vcore::machinery_error(&format!("unknown replay leg {other}")),
         }
         r.finish_replay();
     }
     match leg.as_str() {
-        "dyn" => h_cql::c01dyn::run(&r),
+        "dyn" => h_val::c01dyn::run(&r),
+        "static" => h_val::c01static::run(&r),
         other => vcore::machinery_error(&format!("unknown leg {other}")),
     }
     r.finish();
